@@ -56,6 +56,8 @@ def corpus_cases():
     d = core.VERIF / "corpus" / "C04"
     for f in sorted(d.glob("*.json")) if d.is_dir() else []:
         body = json.loads(f.read_text())
+        if "project" not in body:
+            continue            # witnesses of the in-process probes (pipeline / write-failure) are replayed by those probes
         out.append({"name": "corpus:" + f.stem, "files": decode_project(body["project"]),
                     "codemod": body["codemod"], "options": body.get("options", []), "manifests": body.get("manifests", [])})
     return out
@@ -217,7 +219,7 @@ def evaluate(ctx, R, case, a, b, before, dry, real):
     W = [(A.content(case["files"][m]), depid, A.content(real_tree[m])) for m in manifest_changed]
     hx_fs = [(A.path(p), A.content(c)) for p, c in case["files"].items()]
     ob_fs = [(A.path(p), A.content(c)) for p, c in core.read_tree(a).items() if p in case["files"]]
-    ob_rows = [(A.codemod(r["codemod"]), [A.path(p) for p in r["changed"]], [A.path(p) for p in r["failed"]]) for r in dry_rows]
+    ob_rows = [(A.codemod(r["codemod"]), [A.path(p) for p in r["changed"]], [A.path(p) for p in r["failed"]], [A.path(p) for p in rc.unfixed_paths(r)]) for r in dry_rows]
     # oracle: which selected sources the pipeline cannot read (UTF-8 decode + libcst parse), e.g. a setup.py stored as UTF-16
     import libcst
     hx_bad = []
@@ -291,6 +293,7 @@ for name, (pipe, ext) in PIPES.items():
         r = go(root, mode == "dry", pipe, ext, 2)
         after = snap(root)
         r["touched"] = sorted(p for p in set(before) | set(after) if before.get(p) != after.get(p))
+        r["before"], r["after"] = before, after
         res[mode] = r
     out[name] = res
 print(json.dumps(out))
@@ -343,7 +346,103 @@ def check_pipeline_probes(ctx, files, tag):
             ctx.violation("kf_dry_report_differs", f"{tag}: {name} pipeline: change sets / failures of the dry run differ from the real run: "
                           f"{[c[0] for c in r['dry']['changesets']]} vs {[c[0] for c in r['real']['changesets']]}",
                           {**replay, "expected": "identical change sets and failures"})
+    # MODEL vs implementation on the regex / XML branches of pipeline_apply: oracle values from the real run, prediction of the dry run
+    terms, names = [], []
+    for name, r in out.items():
+        pipe = "PRegex" if name == "regex" else "PXml"
+        real, dry = r["real"], r["dry"]
+        if real["raised"]:
+            continue
+        observed = {"changed": [c[0] for c in dry["changesets"]], "failed": dry["failed"], "raised": dry["raised"], "tree": dry["after"]}
+        terms.append(rc.probe_hcase(pipe, real["before"], real["after"], real["failed"], observed, True))
+        names.append(name)
+    if terms:
+        bad = core.eval_bad_indices(ctx, f"c04_probe_{abs(hash(tag)) % 10000}", rc.IMPORTS, "hcase", terms, ["run_model_ok", "dry_spec_ok"])
+        for i in bad["run_model_ok"]:
+            ctx.mismatch(f"{names[i]} pipeline (real classes, dry run) vs Model.Run.run at {('PRegex' if names[i] == 'regex' else 'PXml')}",
+                         f"{tag}: the model does not predict the dry run of the {names[i]} pipeline", {"pipeline_probe": names[i], "probe_files": files, "case_term": terms[i]})
+        for i in bad["dry_spec_ok"]:
+            ctx.violation("kf_dry_run_writes", f"{tag}: {names[i]} pipeline: a path's content changed under dry_run=True",
+                          {"pipeline_probe": names[i], "probe_files": files})
     return out
+
+
+WRITE_FAILURE_PROBE = r"""
+import builtins, errno, json, sys
+from pathlib import Path
+from codemodder.dependency import Security
+from codemodder.dependency_management.requirements_txt_writer import RequirementsTxtWriter
+from codemodder.dependency_management.setupcfg_writer import SetupCfgWriter
+from codemodder.project_analysis.file_parsers.package_store import PackageStore, FileType
+root = Path(sys.argv[1]).resolve()
+real_open = builtins.open
+class Failing:
+    def __init__(self, f): self.f = f
+    def __enter__(self): return self
+    def __exit__(self, *a): self.f.close(); return False
+    def writelines(self, l): raise OSError(errno.ENOSPC, "No space left on device")
+    def write(self, s): raise OSError(errno.ENOSPC, "No space left on device")
+def patched(path, mode="r", *a, **k):
+    f = real_open(path, mode, *a, **k)
+    if "w" in mode and str(path).startswith(str(root)):
+        return Failing(f)
+    return f
+out = {}
+for kind, name, cls, ft, text in [("SReqTxt", "requirements.txt", RequirementsTxtWriter, FileType.REQ_TXT, "requests\nclick\n"),
+                                  ("SSetupCfg", "setup.cfg", SetupCfgWriter, FileType.SETUP_CFG, "[options]\ninstall_requires =\n    requests\n    click\n")]:
+    p = root / name
+    p.write_text(text)
+    dry = cls(PackageStore(type=ft, file=p, dependencies=set(), py_versions=[]), root).write([Security], dry_run=True)
+    intact = p.read_text() == text
+    builtins.open = patched
+    try:
+        try:
+            real = cls(PackageStore(type=ft, file=p, dependencies=set(), py_versions=[]), root).write([Security], dry_run=False)
+            raised = None
+        except Exception as e:
+            real, raised = None, type(e).__name__
+    finally:
+        builtins.open = real_open
+    out[kind] = {"dry_changeset": dry is not None, "dry_intact": intact, "real_changeset": real is not None, "raised": raised,
+                 "after": p.read_text(), "before": text}
+print(json.dumps(out))
+"""
+
+
+def write_failure_probe(ctx):
+    """OS write error (ENOSPC injected into open(..., "w") under a scratch directory) in the two writers that swallow it, real classes"""
+    import subprocess
+    d = ctx.scratch / "write_failure"
+    d.mkdir()
+    p = subprocess.run([core.PY, "-c", WRITE_FAILURE_PROBE, str(d)], env=core.cli_env(), stdout=subprocess.PIPE, stderr=subprocess.PIPE, timeout=300)
+    line = [l for l in p.stdout.decode().splitlines() if l.startswith("{")]
+    if not line:
+        raise RuntimeError("write-failure probe failed: " + p.stderr.decode()[-800:])
+    return json.loads(line[-1])
+
+
+def check_write_failure(ctx):
+    tv = ctx.tables or {}
+    catches = dict((k, b) for k, b in (tv.get("writer_catch_table") or []))
+    out = write_failure_probe(ctx)
+    ctx.count("write_failure_probe")
+    ctx.notes.append(f"write-failure probe (real writer classes, injected ENOSPC): {out}")
+    for kind, r in out.items():
+        ctx.case({"write_failure": kind, "observed": r}, nontrivial_key=("write_failure", kind))
+        # MODEL (try_stores_os with the table): a catching writer returns None and leaves the manifest empty; otherwise the error escapes
+        model = {"real_changeset": False, "after": "", "raised": None} if catches.get(kind) else None
+        if model is not None and (r["real_changeset"], r["after"], r["raised"]) != (model["real_changeset"], model["after"], model["raised"]):
+            ctx.mismatch(f"{kind} writer under a write error vs Model.Run.try_stores_os", f"observed {r}, the model (writer_catch_table={catches}) says {model}",
+                         {"write_failure_probe": kind, "observed": r})
+        if model is None and not r["raised"]:
+            ctx.mismatch(f"{kind} writer under a write error vs writer_catch_table", f"the table says the error escapes but {r}", {"write_failure_probe": kind})
+        # SPEC: the dry run predicts the real run, and no file changes without a change set
+        if r["dry_changeset"] != r["real_changeset"] or (not r["real_changeset"] and r["after"] != r["before"]):
+            ctx.violation("kf_manifest_truncated_on_write_error",
+                          f"{kind}: with a write error the real run returns {'a change set' if r['real_changeset'] else 'no change set'} and leaves the manifest as "
+                          f"{r['after']!r} (was {r['before']!r}); the dry run {'promises' if r['dry_changeset'] else 'does not promise'} the change set",
+                          {"write_failure_probe": kind, "observed": r, "theorem": "C04_write_failure_refuted",
+                           "expected": "manifest unchanged when no change set is reported; report(dry) == report(real)"})
 
 
 def run(ctx: core.Ctx):
@@ -388,12 +487,14 @@ def run(ctx: core.Ctx):
                           {"project": core.b64tree(c["files"]), "codemod": c["codemod"], "options": c["options"], "manifests": c["manifests"]})
     for i in range(2 if ctx.quick() else 12):
         check_pipeline_probes(ctx, probe_files(ctx.rng), f"probe:{i}")
+    check_write_failure(ctx)
     rc.audit_lifts(ctx)
     # active branch of the table-indexed statement
     tv = ctx.tables or {}
     guards_ok = all("IfNotDryWrite" in (tv.get(k) or []) for k in ("libcst_apply_guards", "regex_apply_guards", "xml_apply_guards")) \
         and all(b for _, b in (tv.get("writer_dry_guards") or [[None, False]]))
     if not guards_ok:
+        ctx.notes.append("C04_dry_report_refuted_manifest reduces to True on these tables (its witness needs the dry-run guards): it proves nothing here")
         ctx.notes.append("C04_dry_run_fs is on its NEGATIVE branch for the current source (a write is not under `if not dry_run`): "
                          f"tables = { {k: tv.get(k) for k in ('libcst_apply_guards', 'regex_apply_guards', 'xml_apply_guards', 'writer_dry_guards')} }")
         if not any(v["class"] == "kf_dry_run_writes" for v in ctx.violations):
@@ -403,6 +504,11 @@ def run(ctx: core.Ctx):
 
 
 def replay(ctx, body):
+    if "write_failure_probe" in body:
+        out = write_failure_probe(ctx)
+        print("write-failure probe now:", out[body["write_failure_probe"]])
+        print("recorded:", body.get("observed"))
+        return 0
     if "pipeline_probe" in body:
         out = check_pipeline_probes(ctx, body["probe_files"], "replay")
         r = out[body["pipeline_probe"]]
